@@ -37,7 +37,7 @@ Proof. exact (grow_images_exact m ops atoms wq g). Qed.
 Print Assumptions C14_grow_images_exact.
 
 Theorem C14_packer_no_coincide m ops atoms idx needs wq :
-  let init := omap (fun a => if negb wq && sa_qpeak a then None else Some (sa_part a, (sa_x a, sa_y a, sa_z a))) atoms in
+  let init := omap (fun a => if sa_qpeak a then None else Some (sa_part a, (sa_x a, sa_y a, sa_z a))) atoms in
   exists pl, fst (fold_left (fun st nd => fold_left (pack_one ROps m ops wq idx nd) (number_from 0 atoms) st) needs (init, [])) = init ++ pl
              /\ placed_ok m init pl.
 Proof. exact (packer_no_coincide m ops atoms idx needs wq). Qed.
@@ -61,6 +61,13 @@ Theorem C14_packer_complete m ops atoms idx needs wq nd i a s px py pz :
   nth_error ops (nd_n nd) = Some s -> apply ROps s (sa_x a) (sa_y a) (sa_z a) = (px, py, pz) ->
   placed_or_there m i (nd_n nd) (sa_part a) (px + (5 - nd_fx nd - 5)) (py + (5 - nd_fy nd - 5)) (pz + (5 - nd_fz nd - 5))
     (fold_left (fun st nd => fold_left (pack_one ROps m ops wq idx nd) (number_from 0 atoms) st) needs
-               (omap (fun a => if negb wq && sa_qpeak a then None else Some (sa_part a, (sa_x a, sa_y a, sa_z a))) atoms, [])).
+               (omap (fun a => if sa_qpeak a then None else Some (sa_part a, (sa_x a, sa_y a, sa_z a))) atoms, [])).
 Proof. exact (packer_complete m ops atoms idx needs wq nd i a s px py pz). Qed.
 Print Assumptions C14_packer_complete.
+
+Theorem C14_packer_compares_with_atoms_only m ops atoms idx needs wq :
+  let final := fold_left (fun st nd => fold_left (pack_one ROps m ops wq idx nd) (number_from 0 atoms) st) needs
+                 (omap (fun a => if sa_qpeak a then None else Some (sa_part a, (sa_x a, sa_y a, sa_z a))) atoms, []) in
+  forall p, In p (fst final) -> real_site atoms p \/ grown_site (snd final) p.
+Proof. exact (packer_compares_with_atoms_only m ops atoms idx needs wq). Qed.
+Print Assumptions C14_packer_compares_with_atoms_only.
